@@ -522,5 +522,9 @@ func wfExtents(T []uint64) bool {
 
 //@ func (*Serializer).Deserialize
 //@   props C19
-//@   invariant 0 0 <= off && off <= len(dst.Tape) && 0 <= nSkips && nSkips <= len(dst.Tape)
+//@   invariant 0 0 <= off && 0 <= nSkips && off <= len(dst.Tape) && nSkips <= len(dst.Tape) && off+nSkips <= len(dst.Tape)
+//@   invariant 1 0 <= i && i <= nSkips && nSkips <= len(dst.Tape) && 0 <= off && off <= len(dst.Tape) && off+(nSkips-i) < len(dst.Tape)
+//@   decreases 1 nSkips - i
+//@   invariant 2 0 <= i && i <= nSkips && nSkips <= len(dst.Tape) && 0 <= off && off <= len(dst.Tape) && off+(nSkips-i) <= len(dst.Tape)
+//@   decreases 2 nSkips - i
 //@   safe
